@@ -13,6 +13,8 @@ package c04
 
 import (
 	"context"
+	"crypto"
+	"crypto/sha1"
 	"crypto/x509"
 	"crypto/x509/pkix"
 	"encoding/asn1"
@@ -22,11 +24,14 @@ import (
 	"unicode/utf8"
 
 	ldap "github.com/go-ldap/ldap/v3"
+	revresult "github.com/notaryproject/notation-core-go/revocation/result"
+	"github.com/notaryproject/notation-core-go/signature"
 	"github.com/notaryproject/notation-go"
 	"github.com/notaryproject/notation-go/verifier"
 	"github.com/notaryproject/notation-go/verifier/trustpolicy"
 	"github.com/notaryproject/notation-go/verifier/truststore"
 	"github.com/notaryproject/notation-go/xverif/common"
+	pluginfw "github.com/notaryproject/notation-plugin-framework-go/plugin"
 	"github.com/opencontainers/go-digest"
 	ocispec "github.com/opencontainers/image-spec/specs-go/v1"
 )
@@ -49,6 +54,7 @@ type Input struct {
 	Identities []Identity  `json:"identities"`
 	Chain      []DN        `json:"chain"`
 	Minted     [][2]string `json:"minted"`
+	Plugin     *Plugin     `json:"plugin"`
 }
 
 type Obs struct {
@@ -634,15 +640,19 @@ var target = ocispec.Descriptor{MediaType: ocispec.MediaTypeImageManifest, Diges
 
 const artifactRef = "reg.example/c04@sha256:0000000000000000000000000000000000000000000000000000000000000000"
 
-func newDoc(level string, ids []string) *trustpolicy.OCIDocument {
+const pluginName = "c04-verification-plugin"
+
+func newDoc(level string, revSkip bool, ids []string) *trustpolicy.OCIDocument {
+	sv := trustpolicy.SignatureVerification{VerificationLevel: level, VerifyTimestamp: trustpolicy.OptionAfterCertExpiry}
+	if revSkip {
+		sv.Override = map[trustpolicy.ValidationType]trustpolicy.ValidationAction{trustpolicy.TypeRevocation: trustpolicy.ActionSkip}
+	}
 	return &trustpolicy.OCIDocument{Version: "1.0", TrustPolicies: []trustpolicy.OCITrustPolicy{{
-		Name: "c04",
-		SignatureVerification: trustpolicy.SignatureVerification{VerificationLevel: level,
-			Override:        map[trustpolicy.ValidationType]trustpolicy.ValidationAction{trustpolicy.TypeRevocation: trustpolicy.ActionSkip},
-			VerifyTimestamp: trustpolicy.OptionAfterCertExpiry},
-		TrustStores:       []string{"ca:c04"},
-		TrustedIdentities: ids,
-		RegistryScopes:    []string{"*"},
+		Name:                  "c04",
+		SignatureVerification: sv,
+		TrustStores:           []string{"ca:c04"},
+		TrustedIdentities:     ids,
+		RegistryScopes:        []string{"*"},
 	}}}
 }
 
@@ -659,43 +669,99 @@ func authenticity(out *notation.VerificationOutcome) (bool, error) {
 	return false, fmt.Errorf("no authenticity result in the outcome (outcome error: %v)", out.Error)
 }
 
+// everything here lives as long as the process: verifiers, trust store, plugin manager,
+// revocation validator (and, in Run, the shared keys) - so that per-process state of the
+// implementation keyed too coarsely meets different subjects under the same key.
 type world struct {
-	store *memStore
-	doc   map[string]*trustpolicy.OCIDocument // per level: the document the long-lived verifier holds
-	ver   map[string]notation.Verifier
+	store  *memStore
+	plugin *common.ScriptedPlugin
+	mgr    *common.ScriptedManager
+	rev    *common.ScriptedRevocation
+	doc    map[string]*trustpolicy.OCIDocument // per (level, revocation skipped): the document the long-lived verifier holds
+	ver    map[string]notation.Verifier
+}
+
+func cfgKey(level string, revSkip bool) string { return fmt.Sprint(level, "/", revSkip) }
+
+func (w *world) options(d *trustpolicy.OCIDocument) verifier.VerifierOptions {
+	return verifier.VerifierOptions{OCITrustPolicy: d, PluginManager: w.mgr, RevocationCodeSigningValidator: w.rev}
 }
 
 func newWorld() (*world, error) {
-	w := &world{store: &memStore{}, doc: map[string]*trustpolicy.OCIDocument{}, ver: map[string]notation.Verifier{}}
+	w := &world{store: &memStore{}, plugin: &common.ScriptedPlugin{}, doc: map[string]*trustpolicy.OCIDocument{}, ver: map[string]notation.Verifier{}}
+	w.mgr = &common.ScriptedManager{Plugins: map[string]pluginfw.Plugin{pluginName: w.plugin}}
+	// revocation is answered locally (no network); the identity check precedes it anyway
+	w.rev = &common.ScriptedRevocation{Results: common.UniformResults(revresult.ResultOK)}
 	for _, lv := range []string{"strict", "permissive", "audit"} {
-		d := newDoc(lv, []string{"*"})
-		v, err := verifier.NewVerifierWithOptions(w.store, verifier.VerifierOptions{OCITrustPolicy: d})
-		if err != nil {
-			return nil, err
+		for _, rs := range []bool{false, true} {
+			d := newDoc(lv, rs, []string{"*"})
+			v, err := verifier.NewVerifierWithOptions(w.store, w.options(d))
+			if err != nil {
+				return nil, err
+			}
+			w.doc[cfgKey(lv, rs)], w.ver[cfgKey(lv, rs)] = d, v
 		}
-		w.doc[lv], w.ver[lv] = d, v
 	}
 	return w, nil
+}
+
+// Plugin is the JSON shape of the Lean structure `Plugin`.
+type Plugin struct {
+	Capabilities    []string `json:"capabilities"`
+	IdentitySuccess bool     `json:"identitySuccess"`
+}
+
+// script sets what the installed plugin declares and answers
+func (w *world) script(p *Plugin) {
+	if p == nil {
+		return
+	}
+	var caps []pluginfw.Capability
+	results := map[pluginfw.Capability]*pluginfw.VerificationResult{}
+	for _, c := range p.Capabilities {
+		switch c {
+		case "trustedIdentity":
+			caps = append(caps, pluginfw.CapabilityTrustedIdentityVerifier)
+			results[pluginfw.CapabilityTrustedIdentityVerifier] = &pluginfw.VerificationResult{Success: p.IdentitySuccess, Reason: "scripted"}
+		case "revocationCheck":
+			caps = append(caps, pluginfw.CapabilityRevocationCheckVerifier)
+			results[pluginfw.CapabilityRevocationCheckVerifier] = &pluginfw.VerificationResult{Success: true}
+		}
+	}
+	w.plugin.Metadata = &pluginfw.GetMetadataResponse{Name: pluginName, Description: "d", Version: "1.0.0", URL: "u",
+		SupportedContractVersions: []string{"1.0"}, Capabilities: caps}
+	w.plugin.VerifyResp = &pluginfw.VerifySignatureResponse{VerificationResults: results}
+	w.plugin.VerifyRequests = nil
+}
+
+type config struct {
+	level   string
+	revSkip bool
+	media   string
+	plugin  *Plugin
 }
 
 // verifyMutated: the long-lived verifier was constructed with a valid document; the
 // statement's identity list is replaced in place afterwards, so that every list - also those
 // the document validation refuses - reaches verifyX509TrustedIdentities.
-func (w *world) verifyMutated(level string, ids []string, sig []byte, media string) (bool, error) {
-	w.doc[level].TrustPolicies[0].TrustedIdentities = ids
-	out, _ := w.ver[level].Verify(context.Background(), target, sig, notation.VerifierVerifyOptions{ArtifactReference: artifactRef, SignatureMediaType: media})
+func (w *world) verifyMutated(cf config, ids []string, sig []byte) (bool, error) {
+	w.script(cf.plugin)
+	k := cfgKey(cf.level, cf.revSkip)
+	w.doc[k].TrustPolicies[0].TrustedIdentities = ids
+	out, _ := w.ver[k].Verify(context.Background(), target, sig, notation.VerifierVerifyOptions{ArtifactReference: artifactRef, SignatureMediaType: cf.media})
 	return authenticity(out)
 }
 
 // verifyFresh: the ordinary route - a verifier constructed from the document itself (only
 // possible when the document validates).
-func (w *world) verifyFresh(level string, ids []string, sig []byte, media string) (pass, ran bool, err error) {
-	d := newDoc(level, ids)
-	v, verr := verifier.NewVerifierWithOptions(w.store, verifier.VerifierOptions{OCITrustPolicy: d})
+func (w *world) verifyFresh(cf config, ids []string, sig []byte) (pass, ran bool, err error) {
+	w.script(cf.plugin)
+	d := newDoc(cf.level, cf.revSkip, ids)
+	v, verr := verifier.NewVerifierWithOptions(w.store, w.options(d))
 	if verr != nil {
 		return false, false, nil
 	}
-	out, _ := v.Verify(context.Background(), target, sig, notation.VerifierVerifyOptions{ArtifactReference: artifactRef, SignatureMediaType: media})
+	out, _ := v.Verify(context.Background(), target, sig, notation.VerifierVerifyOptions{ArtifactReference: artifactRef, SignatureMediaType: cf.media})
 	p, e := authenticity(out)
 	return p, true, e
 }
@@ -708,50 +774,134 @@ func mintedList(d dnAST) [][2]string {
 	return out
 }
 
-// Run generates chains x identity lists.
+func ski(k crypto.Signer) []byte {
+	b, err := x509.MarshalPKIXPublicKey(k.Public())
+	if err != nil {
+		panic(err)
+	}
+	h := sha1.Sum(b)
+	return h[:]
+}
+
+func (g *gen) pluginFor() *Plugin {
+	switch p := g.r.Float64(); {
+	case p < 0.62:
+		return nil
+	case p < 0.82:
+		// declares the revocation capability only: the identity check stays native
+		return &Plugin{Capabilities: []string{"revocationCheck"}, IdentitySuccess: g.chance(0.5)}
+	case p < 0.91:
+		return &Plugin{Capabilities: []string{"trustedIdentity"}, IdentitySuccess: g.chance(0.5)}
+	default:
+		caps := []string{"trustedIdentity", "revocationCheck"}
+		if g.chance(0.5) {
+			caps = []string{"revocationCheck", "trustedIdentity"}
+		}
+		return &Plugin{Capabilities: caps, IdentitySuccess: g.chance(0.5)}
+	}
+}
+
+func pluginKind(p *Plugin) string {
+	if p == nil {
+		return "none"
+	}
+	k := strings.Join(p.Capabilities, "+")
+	if strings.Contains(k, "trustedIdentity") {
+		k += fmt.Sprint("/answers-", p.IdentitySuccess)
+	}
+	return k
+}
+
+// Run generates chains x identity lists x plugins.
 func Run(c *common.Ctx) error {
 	chains, listsPer := 650, 7
 	if c.Thorough() {
 		chains, listsPer = 10000, 9
 	}
-	c.Note("%d chains (root [-> intermediate] -> leaf minted with the AST as RawSubject) x (%d random identity lists + the lone wildcard); every list through a long-lived verifier whose document is mutated in place, and again through a freshly validated verifier when the document validates; levels strict/permissive/audit, JWS and COSE", chains, listsPer)
+	c.Note("%d chains (root [-> intermediate] -> leaf minted with the AST as RawSubject; two long-lived leaf keys with explicit SubjectKeyId, a long-lived root key and re-used CA certificates, so that many different subjects appear under the same SKI / public key / issuer in one process) x (%d random identity lists + the lone wildcard) x verification plugin (none | revocation-only | owning trusted identity, approving or rejecting); every list through a long-lived verifier whose document is mutated in place, and again through a freshly validated verifier when the document validates; levels strict/permissive/audit, revocation enforced/logged (scripted validator) or skipped, JWS and COSE", chains, listsPer)
 	g := &gen{r: c.Rand, c: c}
 	w, err := newWorld()
 	if err != nil {
 		return fmt.Errorf("world: %v", err)
 	}
-	// the in-place replacement of the identity list must be seen by the long-lived verifier
-	// (otherwise every case would silently run under the wildcard): checked on every chain
-	// below by requiring at least one failing list overall.
 	sawFail, sawPass := false, false
 	mismatch := 0
+
+	sharedLeafKeys := []crypto.Signer{common.NewECKey(), common.NewECKey()}
+	sharedRootKey := common.NewECKey()
+	var root, inter *common.Cert
+	var rootAST, interAST dnAST
 
 	for n := 0; n < chains; n++ {
 		leaf, kind := g.leafSubject()
 		c.Count("leaf=" + kind)
-		withInter := g.chance(0.6)
-		rootAST := g.caSubject(leaf, "root", n)
-		root := common.MakeCert(common.CertOpts{RawSubject: der(rootAST), CA: true, PathLen: 1})
+		// certificate authorities are kept for a few chains (same issuer, other leaf subjects)
+		if root == nil || g.chance(0.4) {
+			rootAST = g.caSubject(leaf, "root", n)
+			var key crypto.Signer
+			if g.chance(0.5) {
+				key = sharedRootKey
+				c.Count("root-key=shared")
+			}
+			root = common.MakeCert(common.CertOpts{RawSubject: der(rootAST), CA: true, PathLen: 1, Key: key})
+			interAST = g.caSubject(leaf, "intermediate", n)
+			inter = common.MakeCert(common.CertOpts{RawSubject: der(interAST), CA: true, PathLen: 0, Parent: root})
+			c.Count("ca=new")
+		} else {
+			c.Count("ca=kept")
+		}
 		issuer := root
 		casAST := []dnAST{rootAST}
 		certs := []*common.Cert{root}
-		if withInter {
-			interAST := g.caSubject(leaf, "intermediate", n)
-			inter := common.MakeCert(common.CertOpts{RawSubject: der(interAST), CA: true, PathLen: 0, Parent: root})
+		if g.chance(0.6) {
 			issuer = inter
 			casAST = append([]dnAST{interAST}, casAST...)
 			certs = append([]*common.Cert{inter}, certs...)
 		}
-		leafCert := common.MakeCert(common.CertOpts{RawSubject: der(leaf), Parent: issuer, EKU: []x509.ExtKeyUsage{x509.ExtKeyUsageCodeSigning}})
+		// the leaf: mostly one of two long-lived keys with an explicit subject key identifier
+		var leafKey crypto.Signer
+		var leafSKI []byte
+		switch p := g.r.Float64(); {
+		case p < 0.50:
+			leafKey, leafSKI = sharedLeafKeys[0], ski(sharedLeafKeys[0])
+			c.Count("leaf-key=shared-0+ski")
+		case p < 0.65:
+			leafKey, leafSKI = sharedLeafKeys[1], ski(sharedLeafKeys[1])
+			c.Count("leaf-key=shared-1+ski")
+		case p < 0.75:
+			leafKey = sharedLeafKeys[0]
+			c.Count("leaf-key=shared-0")
+		case p < 0.85:
+			leafKey = common.NewECKey()
+			leafSKI = ski(leafKey)
+			c.Count("leaf-key=fresh+ski")
+		default:
+			c.Count("leaf-key=fresh")
+		}
+		leafCert := common.MakeCert(common.CertOpts{RawSubject: der(leaf), Parent: issuer, Key: leafKey, SubjectKeyId: leafSKI,
+			EKU: []x509.ExtKeyUsage{x509.ExtKeyUsageCodeSigning}})
 		certs = append([]*common.Cert{leafCert}, certs...)
 		chain := &common.Chain{Certs: certs}
 		media := common.MediaJWS
 		if g.chance(0.3) {
 			media = common.MediaCOSE
 		}
-		sig, err := common.SignEnvelope(common.EnvOpts{Format: media, Chain: chain, Target: &target})
-		if err != nil {
-			return fmt.Errorf("sign (leaf kind %s, subject %q): %v", kind, leafCert.Cert.Subject.String(), err)
+		// one envelope without and (on demand) one with the verification-plugin attribute
+		sigs := map[bool][]byte{}
+		sign := func(withPlugin bool) ([]byte, error) {
+			if b, ok := sigs[withPlugin]; ok {
+				return b, nil
+			}
+			var attrs []signature.Attribute
+			if withPlugin {
+				attrs = []signature.Attribute{{Key: verifier.HeaderVerificationPlugin, Critical: true, Value: pluginName}}
+			}
+			b, err := common.SignEnvelope(common.EnvOpts{Format: media, Chain: chain, Target: &target, ExtAttrs: attrs})
+			if err != nil {
+				return nil, fmt.Errorf("sign (leaf kind %s, subject %q): %v", kind, leafCert.Cert.Subject.String(), err)
+			}
+			sigs[withPlugin] = b
+			return b, nil
 		}
 		w.store.certs = []*x509.Certificate{root.Cert}
 
@@ -765,27 +915,47 @@ func Run(c *common.Ctx) error {
 		}
 		minted := mintedList(leaf)
 
-		emit := func(level string, ids []string) error {
-			in := Input{Identities: []Identity{}, Chain: chainDN, Minted: minted}
+		randomConfig := func() config {
+			cf := config{level: g.pick([]string{"strict", "strict", "permissive", "audit"}), revSkip: g.chance(0.4), media: media, plugin: g.pluginFor()}
+			if cf.plugin != nil && g.chance(0.7) {
+				cf.revSkip = false // revocation enforced or logged: the plugin is really executed
+			}
+			return cf
+		}
+
+		emit := func(cf config, ids []string) error {
+			in := Input{Identities: []Identity{}, Chain: chainDN, Minted: minted, Plugin: cf.plugin}
 			for _, s := range ids {
 				_, after, _ := strings.Cut(s, ":")
 				in.Identities = append(in.Identities, Identity{Raw: s, Rdns: parse(after)})
 			}
-			pass, aerr := w.verifyMutated(level, ids, sig, media)
+			sig, err := sign(cf.plugin != nil)
+			if err != nil {
+				return err
+			}
+			pass, aerr := w.verifyMutated(cf, ids, sig)
 			if aerr != nil && strings.Contains(aerr.Error(), "no authenticity result") {
 				return fmt.Errorf("generator: %v", aerr)
 			}
 			c.Emit(in, Obs{Pass: pass})
 			c.Count("route=mutated-document")
-			c.Count("level=" + level)
-			if pass {
-				c.Count("outcome=pass")
-				sawPass = true
-			} else {
-				c.Count("outcome=fail")
-				sawFail = true
+			c.Count("level=" + cf.level)
+			c.Count(fmt.Sprint("revocation-skipped=", cf.revSkip))
+			c.Count("plugin=" + pluginKind(cf.plugin))
+			if cf.plugin != nil {
+				c.Count(fmt.Sprint("plugin-executed=", len(w.plugin.VerifyRequests) > 0))
 			}
-			if p2, ran, _ := w.verifyFresh(level, ids, sig, media); ran {
+			native := cf.plugin == nil || !strings.Contains(pluginKind(cf.plugin), "trustedIdentity")
+			if native {
+				if pass {
+					c.Count("outcome=pass")
+					sawPass = true
+				} else {
+					c.Count("outcome=fail")
+					sawFail = true
+				}
+			}
+			if p2, ran, _ := w.verifyFresh(cf, ids, sig); ran {
 				c.Emit(in, Obs{Pass: p2})
 				c.Count("route=validated-document")
 			}
@@ -794,11 +964,17 @@ func Run(c *common.Ctx) error {
 
 		// control: the lone wildcard accepts this chain (trust-store authenticity itself passes,
 		// so that the only possible authenticity error of the other cases is the identity check)
-		level := g.pick([]string{"strict", "strict", "permissive", "audit"})
-		if pass, aerr := w.verifyMutated(level, []string{"*"}, sig, media); !pass {
+		cf := randomConfig()
+		ctl := cf
+		ctl.plugin = nil
+		csig, err := sign(false)
+		if err != nil {
+			return err
+		}
+		if pass, aerr := w.verifyMutated(ctl, []string{"*"}, csig); !pass {
 			return fmt.Errorf("generator: trust-store authenticity does not pass for chain %d (leaf kind %s): %v", n, kind, aerr)
 		}
-		if err := emit(level, []string{"*"}); err != nil {
+		if err := emit(cf, []string{"*"}); err != nil {
 			return err
 		}
 		for k := 0; k < listsPer; k++ {
@@ -833,8 +1009,7 @@ func Run(c *common.Ctx) error {
 				c.Count("list=with-wildcard")
 			}
 			c.Count(fmt.Sprintf("list-length=%d", len(ids)))
-			level := g.pick([]string{"strict", "strict", "permissive", "audit"})
-			if err := emit(level, ids); err != nil {
+			if err := emit(randomConfig(), ids); err != nil {
 				return err
 			}
 		}
@@ -842,6 +1017,8 @@ func Run(c *common.Ctx) error {
 	if mismatch > 0 {
 		return fmt.Errorf("%d identities rendered from an AST did not parse back to it with go-ldap (see notes)", mismatch)
 	}
+	// the in-place replacement of the identity list must be seen by the long-lived verifier
+	// (otherwise every case would silently run under the wildcard)
 	if !sawFail || !sawPass {
 		return fmt.Errorf("generator: degenerate run (sawPass=%v sawFail=%v): the in-place identity replacement is not effective", sawPass, sawFail)
 	}
